@@ -268,6 +268,13 @@ class PhaseField(_Simu):
             initcsr = sparse.csr_matrix(self.__Kd.shape)
             return self.__Kd.copy(), initcsr, initcsr, self.__Fd.copy()
 
+    @_Simu.mesh.setter  # type: ignore [attr-defined]
+    def mesh(self, mesh: Mesh):
+        _Simu.mesh.fset(self, mesh)  # type: ignore [attr-defined]
+        # the energies computed on the previous mesh are not a history of this one
+        self.__psiP_e_pg = np.empty(0, dtype=float)
+        self.__old_psiP_e_pg = np.empty(0, dtype=float)
+
     def _Update(self, observable: Observable, event: str) -> None:
         if isinstance(observable, _IModel):
             self.Need_Update()
